@@ -15,3 +15,4 @@ import Gmsm.Props.C13
 import Gmsm.Props.C14
 import Gmsm.Props.C09
 import Gmsm.Props.C17
+import Gmsm.Props.C16
